@@ -429,3 +429,131 @@ class DecodeAdversarial(Obligation):
             r,m=run.check_sat(z3.BoolVal(True))
             if r==z3.sat: rec['sample']={'scenario':scn(m),'expect':'/'.join(kinds)}
         return rec
+
+class ObjPairs:
+    """an object whose members are given as an ordered list of (key bytes - possibly symbolic -, python/SymLeaf value)"""
+    def __init__(self,pairs): self.pairs=pairs
+def to_value_ordered(x):
+    """python document -> serde_json::Value keeping the member order as written (dict insertion order / ObjPairs order)"""
+    if isinstance(x,SymLeaf): return x.v
+    if isinstance(x,list): return jarr([to_value_ordered(y) for y in x])
+    if isinstance(x,dict): return jobj([(k,to_value_ordered(v)) for k,v in x.items()])
+    if isinstance(x,ObjPairs): return jobj([(StringO(list(k)),to_value_ordered(v)) for k,v in x.pairs])
+    return py_to_value(x)
+def key_lt(a,b):
+    """z3 term (or python bool): byte string a sorts before byte string b (serde_json::Map = BTreeMap<String,_> order)"""
+    def tz(x): return z3.BitVecVal(x,8) if isinstance(x,int) else x
+    n=min(len(a),len(b)); t=z3.BoolVal(len(a)<len(b))
+    for i in reversed(range(n)):
+        t=z3.If(z3.ULT(tz(a[i]),tz(b[i])),True,z3.If(tz(a[i])==tz(b[i]),t,False))
+    return z3.simplify(t)
+def sorted_tree(run,v):
+    """what `serde_json::from_str::<Value>` makes of a text document: members of every object in key order"""
+    v=deref(v)
+    if v.vname=='Array': return jarr([sorted_tree(run,x) for x in deref(v.f[0]).items])
+    if v.vname!='Object': return v
+    out=[]
+    for k,x in deref(v.f[0]).e:
+        kb=list(deref(k).b); x=sorted_tree(run,x); pos=len(out)
+        for i,(k2,_) in enumerate(out):
+            t=key_lt(kb,list(deref(k2).b))
+            lt=z3.is_true(t) if (z3.is_true(t) or z3.is_false(t)) else run.branch_bool(Bool(t),'member_order')
+            if lt: pos=i; break
+        out.insert(pos,(k,x))
+    return jobj(out)
+def variant_of(x):
+    """a value of the same shape that differs from x in its first string leaf"""
+    if isinstance(x,str): return (('b' if x[-1:]!='b' else 'c')*max(1,len(x)))
+    if isinstance(x,list):
+        for i,y in enumerate(x):
+            v=variant_of(y)
+            if v is not None: return x[:i]+[v]+x[i+1:]
+        return None
+    if isinstance(x,dict):
+        for k in x:
+            v=variant_of(x[k])
+            if v is not None: return dict(x,**{k:v})
+        return None
+    return None
+class MemberOrder(Obligation):
+    """the order in which the members of an object are WRITTEN does not matter: a text document whose members come in any order
+    decodes on the text channels (document order) exactly as its parsed tree (serde_json::Map: key order) does - also when two
+    members have keys that differ in a single byte"""
+    name='C17.member_order'
+    hash_order='fixed'
+    def __init__(self,what='link',seed=0,rate=20,known=(),**kw):
+        self.what=what; self.seed=seed; self.rate=rate; self.name='C17.member_order_'+what
+        self.ty,self.mkdoc=ADV_DOCS[what]
+        self.bounds={'type':self.ty,'base_document':'one valid document of the type with every optional member present (harness/C14.py ADV_DOCS)',
+                     'text orders':'one object of the document (every object in turn) has its members written reversed, rotated by one, or has one member replaced by TWO members whose keys are the original key with one byte (first / middle / last) freed to two different ASCII bytes and whose values differ; all other objects in key order',
+                     'tree order':'members of every object in byte order of their keys (serde_json::Map without preserve_order), branching on the free bytes','channels':CHANNELS,
+                     'outside':'texts with two members of the SAME key in one object (a tree cannot hold them); more than one reordered object per document'}
+        self.witnesses=['accepted','rejected']; self.seen=set()
+    def setup(self,eng,tier): self.eng=eng; self.b=B(eng)
+    def entry(self,eng):
+        def go(run,args):
+            text,_=args; tree=sorted_tree(run,text); outs=[]
+            for ch in CHANNELS:
+                try: outs.append(('ok',md.de_type(eng,run,self.ty,clone_val(tree if ch=='tree' else text),ch)))
+                except md.DeFail: outs.append(('err',None))
+            return outs
+        return go
+    def mk_args(self,run):
+        doc=self.mkdoc()
+        objs=[]
+        def walk(x,path):
+            if isinstance(x,dict):
+                if len(x)>=1: objs.append(path)
+                for k in sorted(x): walk(x[k],path+(k,))
+            elif isinstance(x,list):
+                for i,y in enumerate(x): walk(y,path+(i,))
+        walk(doc,())
+        path=objs[run.pick(len(objs),'object')]
+        node=doc
+        for p in path: node=node[p]
+        keys=sorted(node)
+        kinds=(['reverse','rotate'] if len(keys)>=2 else [])+['twin_%d_%s'%(i,w) for i in range(len(keys)) for w in ('first','mid','last')]
+        k=kinds[run.pick(len(kinds),'order')]
+        if k=='reverse': new={kk:node[kk] for kk in reversed(keys)}
+        elif k=='rotate': new={kk:node[kk] for kk in keys[1:]+keys[:1]}
+        else:
+            _,i,w=k.split('_'); kk=keys[int(i)]; raw=list(kk.encode())
+            if not raw: raw=[0x61]
+            pos={'first':0,'mid':len(raw)//2,'last':len(raw)-1}[w]
+            c1=z3.BitVec('tk1',8); c2=z3.BitVec('tk2',8); run.add(z3.ULT(c1,0x80),z3.ULT(c2,0x80),c1!=c2)
+            v2=variant_of(node[kk])
+            pairs=[(list(x.encode()),node[x]) for x in keys if x!=kk]+[(raw[:pos]+[c1]+raw[pos+1:],node[kk]),(raw[:pos]+[c2]+raw[pos+1:],v2 if v2 is not None else node[kk])]
+            new=ObjPairs(pairs)
+        def put(x,path):
+            if not path: return new
+            if isinstance(x,dict): return {kk:(put(v,path[1:]) if kk==path[0] else v) for kk,v in sorted(x.items())}
+            return [put(v,path[1:]) if i==path[0] else v for i,v in enumerate(x)]
+        def sort_rest(x):
+            if isinstance(x,dict) and x is not new: return {kk:sort_rest(x[kk]) for kk in sorted(x)}
+            if isinstance(x,list): return [sort_rest(y) for y in x]
+            return x
+        v=to_value_ordered(put(sort_rest(doc),path))
+        return [v,None],{'v':v,'path':path,'order':k}
+    def check(self,run,out,g):
+        rec={'outcome':'ok','viol':None,'wit':[],'sample':None,'obl':1}
+        scn=lambda m: {'kind':'wire','type':self.ty,'value':json_py(g['v'],m),'text_order':True}
+        where='object %s, members %s'%('/'.join(map(str,g['path'])) or '(root)',g['order'])
+        if out[0]!='ret':
+            r,m=run.check_sat(z3.BoolVal(True)); rec['outcome']='panic'
+            rec['viol']={'kind':'panic_decode_'+self.ty,'known_key':None,'scenario':scn(m),'predicted':'panic','what':'decoding a %s document panics (%s): %s'%(self.ty,where,str(out[1])[:200])}; return rec
+        kinds=[o[0] for o in out[1]]; rec['outcome']='/'.join(kinds)
+        if len(set(kinds))>1:
+            r,m=run.check_sat(z3.BoolVal(True)); bad=[c for c,kk in zip(CHANNELS,kinds) if kk=='err']
+            rec['viol']={'kind':'channel_dependent_decoding','known_key':None,'scenario':scn(m),'predicted':'/'.join(kinds),'what':'the same %s document is accepted on some input channels and rejected on others (rejected on: %s; %s)'%(self.ty,','.join(bad),where)}; return rec
+        if kinds[0]=='ok':
+            from mirsym.models import val_eq, b_and
+            eqs=b_and(*[val_eq(out[1][0][1],o[1]) for o in out[1][1:]])
+            r,m=run.check_sat(z3.Not(eqs.z()))
+            if r==z3.sat:
+                rec['viol']={'kind':'channel_dependent_value','confirm':{'values_equal':False},'known_key':None,'scenario':scn(m),'predicted':'/'.join(kinds),'what':'the same %s document decodes to different values from its text (members in document order) and from its parsed tree (members in key order) (%s)'%(self.ty,where)}; return rec
+        w='accepted' if kinds[0]=='ok' else 'rejected'
+        if w not in self.seen: self.seen.add(w); rec['wit'].append(w)
+        if is_sample(run,self.seed,self.rate):
+            r,m=run.check_sat(z3.BoolVal(True))
+            if r==z3.sat: rec['sample']={'scenario':scn(m),'expect':'/'.join(kinds)}
+        return rec
